@@ -260,3 +260,168 @@ example : stepLine b!"4.8.0" b!"2031" b!"# Copyright (c) 2021-2024 CRS project. 
     b!"# Copyright (c) 2021-2031 CRS project. All rights reserved." := by decide +kernel
 
 end Crs.Props
+
+namespace Crs.Props
+open Crs Crs.Copyright
+
+/-! ### a line on which only the `ver:'OWASP_CRS/…'` pattern can act -/
+
+theorem mem_of_mem_splitCh (sep c : Char) (b f : Bytes) (hf : f ∈ splitCh sep b) (hc : c ∈ f) : c ∈ b := by
+  induction b generalizing f with
+  | nil => simp [splitCh] at hf; subst hf; exact absurd hc (by simp)
+  | cons x xs ih =>
+    by_cases hx : x = sep
+    · subst hx
+      rw [splitCh_sep] at hf
+      rcases List.mem_cons.mp hf with rfl | hf
+      · exact absurd hc (by simp)
+      · exact List.mem_cons_of_mem _ (ih f hf hc)
+    · rw [splitCh_cons_ne sep x xs hx] at hf
+      cases hs : splitCh sep xs with
+      | nil => exact absurd hs (splitCh_ne_nil _ _)
+      | cons g gs =>
+        rw [hs] at hf ih
+        simp only [consHead, List.mem_cons] at hf
+        rcases hf with rfl | hf
+        · rcases List.mem_cons.mp hc with rfl | hc
+          · simp
+          · exact List.mem_cons_of_mem _ (ih g (by simp) hc)
+        · exact List.mem_cons_of_mem _ (ih f (by simp [hf]) hc)
+
+theorem mem_joinCh (sep c : Char) (ls : List Bytes) (hc : c ∈ joinCh sep ls) : c = sep ∨ ∃ f ∈ ls, c ∈ f := by
+  induction ls with
+  | nil => simp [joinCh] at hc
+  | cons l rest ih =>
+    cases rest with
+    | nil => exact .inr ⟨l, by simp, by simpa [joinCh] using hc⟩
+    | cons l' ls' =>
+      simp only [joinCh, List.mem_append, List.mem_cons] at hc
+      rcases hc with h | h | h
+      · exact .inr ⟨l, by simp, h⟩
+      · exact .inl h
+      · rcases ih h with h | ⟨f, hf, hcf⟩
+        · exact .inl h
+        · exact .inr ⟨f, List.mem_cons_of_mem _ hf, hcf⟩
+
+theorem sub4Fields_mem (v : Bytes) (a : Bool) (p : Bytes) (fs : List Bytes) :
+    ∀ g ∈ sub4Fields v a p fs, g ∈ fs ∨ g = k4b ++ v := by
+  induction fs generalizing a p with
+  | nil => simp [sub4Fields]
+  | cons f rest ih =>
+    intro g hg
+    unfold sub4Fields at hg
+    split at hg
+    · split at hg
+      · rcases List.mem_cons.mp hg with rfl | hg
+        · exact .inr rfl
+        · rcases ih _ _ g hg with h | h
+          · exact .inl (List.mem_cons_of_mem _ h)
+          · exact .inr h
+      · rcases List.mem_cons.mp hg with rfl | hg
+        · exact .inl (by simp)
+        · rcases ih _ _ g hg with h | h
+          · exact .inl (List.mem_cons_of_mem _ h)
+          · exact .inr h
+    · rcases List.mem_cons.mp hg with rfl | hg
+      · exact .inl (by simp)
+      · rcases ih _ _ g hg with h | h
+        · exact .inl (List.mem_cons_of_mem _ h)
+        · exact .inr h
+
+/-- a character that is neither on the line, nor in the version, nor in `OWASP_CRS/`, nor the quote, is not on the line
+    after the `ver:` pattern has acted -/
+theorem sub4_noChar (v l : Bytes) (c : Char) (hl : c ∉ l) (hv : c ∉ v) (hk : c ∉ k4b) (hq : c ≠ '\'') : c ∉ sub4 v l := by
+  unfold sub4
+  cases hs : splitCh '\'' l with
+  | nil => exact hl
+  | cons f fs =>
+    simp only
+    intro hm
+    rcases mem_joinCh '\'' c _ hm with h | ⟨g, hg, hcg⟩
+    · exact hq h
+    · have hin : ∀ g' ∈ f :: fs, c ∉ g' := by
+        intro g' hg' hc'
+        exact hl (mem_of_mem_splitCh '\'' c l g' (by rw [hs]; exact hg') hc')
+      rcases List.mem_cons.mp hg with rfl | hg
+      · exact hin _ (by simp) hcg
+      · rcases sub4Fields_mem v true f fs g hg with h | h
+        · exact hin g (List.mem_cons_of_mem _ h) hcg
+        · subst h
+          rcases List.mem_append.mp hcg with h' | h'
+          · exact hk h'
+          · exact hv h'
+
+theorem sub4Fields_ne_nil (v : Bytes) (a : Bool) (p f : Bytes) (fs : List Bytes) : sub4Fields v a p (f :: fs) ≠ [] := by
+  unfold sub4Fields
+  split
+  · split <;> simp
+  · simp
+
+/-- the `ver:` pattern does not change how the line begins -/
+theorem sub4_head_ne (v l : Bytes) (c0 : Char) (h : l.head? ≠ some c0) (hq : c0 ≠ '\'') : (sub4 v l).head? ≠ some c0 := by
+  cases l with
+  | nil => simp [sub4, splitCh, sub4Fields, joinCh]
+  | cons c cs =>
+    have hc : c ≠ c0 := by simpa using h
+    unfold sub4
+    by_cases hx : c = '\''
+    · subst hx
+      rw [splitCh_sep]
+      simp only
+      cases hs : splitCh '\'' cs with
+      | nil => exact absurd hs (splitCh_ne_nil _ _)
+      | cons g gs =>
+        cases hf : sub4Fields v true [] (g :: gs) with
+        | nil => exact absurd hf (sub4Fields_ne_nil _ _ _ _ _)
+        | cons g' gs' =>
+          simp only [joinCh, List.nil_append, List.head?_cons, ne_eq, Option.some.injEq]
+          exact fun e => hq e.symm
+    · rw [splitCh_cons_ne '\'' c cs hx]
+      cases hs : splitCh '\'' cs with
+      | nil => exact absurd hs (splitCh_ne_nil _ _)
+      | cons g gs =>
+        simp only [consHead]
+        cases hf : sub4Fields v true (c :: g) gs with
+        | nil => simp [joinCh, hc]
+        | cons g' gs' => simp [joinCh, hc]
+
+/-- on a line that begins neither with `#` nor with `S` and carries no `=`, only the `ver:` pattern acts -/
+theorem stepLine_ver_only (v y l : Bytes) (h0 : l.head? ≠ some '#') (h1 : l.head? ≠ some 'S') (he : '=' ∉ l) :
+    stepLine v y l = sub4 v l := by
+  have hnone : ∀ (P : Bytes) (c0 : Char) (cs : Bytes) (m : Bytes), P = c0 :: cs → m.head? ≠ some c0 → stripPrefix? P m = none := by
+    intro P c0 cs m hP hm
+    subst hP
+    cases m with
+    | nil => simp [stripPrefix?]
+    | cons c ms =>
+      have : c ≠ c0 := by simpa using hm
+      simp [stripPrefix?, Ne.symm this]
+  have s1 : sub1 v l = l := by
+    unfold sub1
+    rw [hnone p1a '#' _ l rfl h0, hnone p1b '#' _ l rfl h0]
+  have s2 : sub2 (digitsOf v) l = l := by
+    unfold sub2
+    rw [splitCh_noSep '=' l he]
+    simp [sub2Fields, joinCh]
+  have s3 : sub3 y l = l := by
+    unfold sub3
+    rw [hnone p3 '#' _ l rfl h0]
+  have s5 : sub5 v (sub4 v l) = sub4 v l := by
+    unfold sub5
+    rw [hnone p5 'S' _ (sub4 v l) rfl (sub4_head_ne v l 'S' h1 (by decide))]
+  unfold stepLine
+  rw [s1, s2, s3, s5]
+
+/-- **C14 (action line with `ver:'OWASP_CRS/…'`: the last invocation wins, for the composed step).** The usual CRS layout —
+    one action per line — puts the marker on a line that begins with white space and carries no `=`. -/
+theorem C14_ver_line_composed (v1 y1 v2 y2 l : Bytes) (hv1 : VersionOk v1)
+    (h0 : l.head? ≠ some '#') (h1 : l.head? ≠ some 'S') (he : '=' ∉ l) :
+    stepLine v2 y2 (stepLine v1 y1 l) = stepLine v2 y2 l := by
+  rw [stepLine_ver_only v1 y1 l h0 h1 he, stepLine_ver_only v2 y2 l h0 h1 he]
+  rw [stepLine_ver_only v2 y2 (sub4 v1 l) (sub4_head_ne v1 l '#' h0 (by decide)) (sub4_head_ne v1 l 'S' h1 (by decide))
+    (sub4_noChar v1 l '=' he (verOk_noEq v1 hv1) (by decide) (by decide))]
+  exact C14_secrule_ver_last_wins v1 v2 l hv1
+
+example : stepLine b!"4.8.0" b!"2031" b!"    ver:'OWASP_CRS/4.0.0',\\" = b!"    ver:'OWASP_CRS/4.8.0',\\" := by decide +kernel
+
+end Crs.Props
